@@ -276,6 +276,10 @@ example : crashTargets (initFS "conf" (some [1, 2, 3])) (repairedTrace "conf.tmp
     = [some [1, 2, 3], some [1, 2, 3], some [1, 2, 3], some [1, 2, 3], some [1, 2, 3],
        some [1, 2, 3], some [9, 8]] := by decide
 
+/-- hypothesis of `untouched_old`: the clean-up trace of a save whose write failed -/
+example : ∀ op ∈ [Op.openTrunc "conf.tmp1", .close "conf.tmp1", .unlink "conf.tmp1"],
+    touches "conf" op = false := by decide
+
 /-- renaming before the data is flushed is rejected by the shape and really is unsafe -/
 example : safeSaveB (initFS "conf" (some [1])) [9, 8]
     [.openTrunc "tmp", .write "tmp" [9, 8], .rename "tmp" "conf", .close "conf"] "conf" = false := by
